@@ -280,7 +280,8 @@ impl EncodingType {
                 | (EncodingType::Null, EncodingType::I64) => EncodingType::I64,
                 (EncodingType::OptStr, EncodingType::Str)
                 | (EncodingType::Str, EncodingType::OptStr) => EncodingType::OptStr,
-                _ => unimplemented!("lub not implemented for {:?} and {:?}", self, other),
+                // any other pair (e.g. a column that is a string in one partition and an integer in another) meets in Val
+                _ => EncodingType::Val,
             }
         }
     }
